@@ -189,6 +189,7 @@ func runMultiLogImpl(tb ev.TB, p c14Prog, prop string) ev.Result {
 	type joinCtx struct {
 		active   bool
 		dst, src int
+		size     int
 		callStep int
 		before   *logState
 	}
@@ -225,29 +226,60 @@ func runMultiLogImpl(tb ev.TB, p c14Prog, prop string) ev.Result {
 					crossOverlap = true
 				}
 			}
-			if jc.active && jc.dst == li && jc.before != nil && !windowed {
-				// result must be before ∪ S for some state S the source really had between call and return
+			if jc.active && jc.dst == li && jc.before != nil && jc.size < 0 {
+				// result must be before ∪ S for some state S the source really had between call and return. When
+				// the program makes size-bounded merges logs are windows of their history and the comparison follows
+				// the merge's own candidate rule: everything reachable from S's heads through entries the
+				// destination did not hold must be there, and nothing beyond before ∪ S.
 				okUnion := false
 				var tried []string
+				matches := func(s logState) bool {
+					if !windowed {
+						u := jc.before.entries.Clone()
+						u.Union(s.entries)
+						return u.Equal(st.entries)
+					}
+					for h := range st.entries {
+						if !jc.before.entries.Has(h) && !s.entries.Has(h) {
+							return false
+						}
+					}
+					for h := range jc.before.entries {
+						if !st.entries.Has(h) {
+							return false
+						}
+					}
+					stack := s.heads.Sorted()
+					seen := world.Set{}
+					for len(stack) > 0 {
+						h := stack[len(stack)-1]
+						stack = stack[:len(stack)-1]
+						if seen.Has(h) || !s.entries.Has(h) || jc.before.entries.Has(h) {
+							continue
+						}
+						seen.Add(h)
+						if !st.entries.Has(h) {
+							return false
+						}
+						stack = append(stack, s.next[h]...)
+					}
+					return true
+				}
 				for _, s := range hist[jc.src] {
 					if s.step < jc.callStep {
 						// only the last state at or before the call counts
 						continue
 					}
-					u := jc.before.entries.Clone()
-					u.Union(s.entries)
 					tried = append(tried, fmt.Sprintf("S@%d(%d entries)", s.step, len(s.entries)))
-					if u.Equal(st.entries) {
+					if matches(s) {
 						okUnion = true
 					}
 				}
 				// the state current at the call
 				for k := len(hist[jc.src]) - 1; k >= 0; k-- {
 					if hist[jc.src][k].step <= jc.callStep {
-						u := jc.before.entries.Clone()
-						u.Union(hist[jc.src][k].entries)
 						tried = append(tried, fmt.Sprintf("S@%d(%d entries)", hist[jc.src][k].step, len(hist[jc.src][k].entries)))
-						if u.Equal(st.entries) {
+						if matches(hist[jc.src][k]) {
 							okUnion = true
 						}
 						break
@@ -279,7 +311,7 @@ func runMultiLogImpl(tb ev.TB, p c14Prog, prop string) ev.Result {
 					if si == op.Dst%n {
 						si = (si + 1) % n
 					}
-					cur[ti] = joinCtx{active: true, dst: op.Dst % n, src: si, callStep: len(sch.Trace)}
+					cur[ti] = joinCtx{active: true, dst: op.Dst % n, src: si, size: sizeOf(op), callStep: len(sch.Trace)}
 					_, err := d.Join(logs[si], sizeOf(op))
 					cur[ti].active = false
 					if err != nil {
@@ -366,7 +398,7 @@ func TestC03Multi(t *testing.T) {
 
 func TestC14Coop(t *testing.T) {
 	c := ev.Get("C14")
-	c.Rule = "generated concurrent programs over 2-3 logs built by a generated setup history (in a few percent of the cases each log additionally starts as a replica of one long history of 1030-1290 entries): 2-4 logical threads each run 1-3 operations from {X.Join(Y), X.Append} with generated X, Y (one program in eight also makes size-bounded merges X.Join(Y, n): for those programs only deadlock freedom, no panic and 'every head is an entry' are asserted, since logs are windows then) (so merges from a log that is concurrently appended to, merged into, or merging back). Engine E1 (cooperative scheduler): every lock request/release of every log and the points join.locked / join.afterValidate / join.beforeHeads are scheduling points, the interleaving is a generated choice list, deadlock is detected exactly. At every write-unlock of a log its state (read without locks) must have heads ⊆ entries, be causally closed and have heads == unreferenced; for a Join the result must equal (destination at lock time) ∪ S for some state S the source log had between the call and the return (states recorded at every write-unlock). Engine E2 (TestC14Free, -race): the same programs on free goroutines with a 20 s watchdog whose expiry is a violation only if the goroutine dump shows the log locks held. Non-trivial = the source was mutated by another thread while a merge from it was in flight, or two merges in opposite directions overlapped; distinct = distinct program."
+	c.Rule = "generated concurrent programs over 2-3 logs built by a generated setup history (in a few percent of the cases each log additionally starts as a replica of one long history of 1030-1290 entries): 2-4 logical threads each run 1-3 operations from {X.Join(Y), X.Append} with generated X, Y (one program in eight also makes size-bounded merges X.Join(Y, n): for those programs: deadlock freedom, no panic, 'every head is an entry', and for their unbounded merges the union clause in the form of the merge's own candidate rule, since logs are windows then) (so merges from a log that is concurrently appended to, merged into, or merging back). Engine E1 (cooperative scheduler): every lock request/release of every log and the points join.locked / join.afterValidate / join.beforeHeads are scheduling points, the interleaving is a generated choice list, deadlock is detected exactly. At every write-unlock of a log its state (read without locks) must have heads ⊆ entries, be causally closed and have heads == unreferenced; for a Join the result must equal (destination at lock time) ∪ S for some state S the source log had between the call and the return (states recorded at every write-unlock). Engine E2 (TestC14Free, -race): the same programs on free goroutines with a 20 s watchdog whose expiry is a violation only if the goroutine dump shows the log locks held. Non-trivial = the source was mutated by another thread while a merge from it was in flight, or two merges in opposite directions overlapped; distinct = distinct program."
 	c.Assumptions = []string{"interleavings are explored at hook granularity", "E2's deadlock verdict needs the goroutine dump to show goroutines parked on the logs' RWMutex"}
 	ev.Check(t, "C14", genC14, runC14Coop)
 }
